@@ -278,6 +278,13 @@ theorem all_exec {P : MH → Prop} (hc : Closed P) {st : St} (h : All P st) (op 
       have := hc.clone (h _ _ hcell)
       exact all_showSig hc ((h.put _ this.1).put _ this.2) r
     · exact h
+  | addseq hd bytes force =>
+    simp only [exec]
+    split
+    · rename_i s hs
+      have h' := h.put hd (hc.addMany (sigHashes s bytes force).1 (h _ _ hs))
+      split <;> exact h'
+    · exact h
 
 /-! ### histories -/
 
